@@ -322,6 +322,7 @@ func purityRun(args []string) error {
 		cap(bversion.VersionMagicBytesB1) != len(bversion.VersionMagicBytesB1) || cap(bversion.VersionMagicBytesB2) != len(bversion.VersionMagicBytesB2) ||
 		cap(integrityblock.IntegrityBlockMagic) != len(integrityblock.IntegrityBlockMagic) || cap(integrityblock.VersionB1) != len(integrityblock.VersionB1)
 
+	failing := failingCalls(r)
 	reps := 50
 	if thorough {
 		reps = 200
@@ -335,7 +336,8 @@ func purityRun(args []string) error {
 		} else {
 			ref.Write(s.run(nil))
 		}
-		// (A) repetitions, interleaved with unrelated calls
+		// (A) repetitions, interleaved with unrelated calls - calls that succeed and calls that are refused or whose destination
+		// fails (purity3.go)
 		calls := []map[string]interface{}{}
 		var raw [][]byte // results as returned, looked at only after all calls (a result must not be backed by reused storage)
 		for i := 0; i < reps; i++ {
@@ -346,6 +348,7 @@ func purityRun(args []string) error {
 			} else {
 				raw = append(raw, s.run(nil))
 			}
+			failing[(i*5+id)%len(failing)]()
 			other := sers[(i*7+3)%len(sers)]
 			if other.gated {
 				var x bytes.Buffer
